@@ -12,7 +12,7 @@ CIDs, several connections sharing hosts, mixed with TLS.
 import hashlib
 import random
 
-from vlib import e2e, engine, gen, outparse, quicsynth, runner, scene, tcpcap
+from vlib import corpus, e2e, engine, gen, outparse, quicsynth, runner, scene, tcpcap
 
 
 def make_scene(rng):
@@ -53,6 +53,9 @@ def build(tier, seed):
     thorough = tier == "thorough"
     cases = [{"id": f"proc-{i}", "kind": "proc", "i": i} for i in range(60 if thorough else 8)]
     cases += [{"id": f"inproc-{i}", "kind": "inproc", "i": i} for i in range(1000 if thorough else 60)]
+    real = corpus.quic_captures(big=thorough) + corpus.tls_captures()[::4]
+    for name, path, _, _ in (real if thorough else real[1:8:2]):        # the repository's real captures (real QUIC stacks: many connection IDs per session)
+        cases.append({"id": f"proc-real-{name}", "kind": "proc", "real": name})
 
     def evalfn(case):
         rng = random.Random(engine.subseed("C18", seed, case["id"]))
@@ -66,10 +69,20 @@ def build(tier, seed):
                 assumptions=["the machine's python -m tlexport.main with PYTHONPATH=/repo is the program under test"])
 
 
+class _Real:
+    def __init__(self, label):
+        self.label = label
+
+
 def eval_proc(case, rng, thorough):
-    flows, cap, keys = make_scene(rng)
+    if case.get("real"):
+        name, path, keys, xo = next(c for c in corpus.tls_captures() + corpus.quic_captures(big=False) + corpus.quic_captures(big=True) if c[0] == case["real"])
+        flows, cap = [_Real("real:" + name)], open(path, "rb").read()
+        extra = xo + rng.choice([[], ["-a"], ["-m"]])
+    else:
+        flows, cap, keys = make_scene(rng)
+        extra = rng.choice([[], ["-a"], ["-m"], ["-c"]])
     files = {"in.pcapng": cap, "keys.log": keys}
-    extra = rng.choice([[], ["-a"], ["-m"], ["-c"]])
     argv = ["-i", "{dir}/in.pcapng", "-o", "{dir}/out.pcapng", "-s", "{dir}/keys.log"] + extra
     variants = [("hashseed0", {"PYTHONHASHSEED": "0"}, None)]
     seeds = ["1", "2", "3"] + [str(rng.randrange(4, 1 << 31)) for _ in range(12 if thorough else 2)]
@@ -114,10 +127,18 @@ def eval_inproc(case, rng):
     eb = rng.choice([[], ["-a"], ["-m"]])
     argv_a = ["-i", "{dir}/a.pcapng", "-o", "{dir}/outa.pcapng", "-s", "{dir}/a.log"] + ea
     argv_b = ["-i", "{dir}/b.pcapng", "-o", "{dir}/outb.pcapng", "-s", "{dir}/b.log"] + eb
+    # a third of the pairs: the earlier run does not finish - capture cut inside a block, capture file missing, key-log file missing (exit())
+    ends = case["i"] % 3 == 2 and rng.choice(["cut-capture", "no-capture", "no-keylog"])
+    if ends == "cut-capture":
+        files["a.pcapng"] = capa[:rng.randrange(max(29, len(capa) // 2), len(capa)) | 1]
+    elif ends == "no-capture":
+        argv_a[1] = "{dir}/missing.pcapng"
+    elif ends == "no-keylog":
+        argv_a[5] = "{dir}/missing.log"
     solo = runner.run_tlexport(files, argv_b, outnames=("outb.pcapng",))
-    both = runner.run_tlexport(files, [argv_a, argv_b], outnames=("outb.pcapng", "outa.pcapng"))
-    out = {"cls": ["inproc", len(fa), len(fb), "+".join(ea), "+".join(eb)], "tags": ["mode:in-process"],
-           "sample": {"case": case["id"], "A": [f.label for f in fa], "B": [f.label for f in fb], "args_A": ea, "args_B": eb}}
+    both = runner.run_tlexport(files, [argv_a, argv_b], outnames=("outb.pcapng", "outa.pcapng"), earlier_may_fail=bool(ends))
+    out = {"cls": ["inproc", len(fa), len(fb), "+".join(ea), "+".join(eb), ends or "completes"], "tags": ["mode:in-process"],
+           "sample": {"case": case["id"], "A": [f.label for f in fa], "B": [f.label for f in fb], "args_A": ea, "args_B": eb, "earlier_run": ends or "completes"}}
     fail = e2e.run_failed(solo)
     if fail:
         return dict(out, v="inconclusive" if fail.startswith("INCONCLUSIVE") else "violated", msg="B alone: " + fail, files=files)
